@@ -3,6 +3,7 @@ import Holpy.C12.Gen
 import Holpy.C12.Proofs
 import Holpy.C12.Exec
 import Holpy.C12.Exec2
+import Holpy.C12.Reread
 /-
 C12 — property theorems (statements live here, helper lemmas in Proofs / Exec / Exec2).
 
@@ -141,6 +142,28 @@ example :
     -- also for the theory that is not on the cycle, and also the second time
     ∧ (exec exWorld none 50 (.load 4 .none) (run exWorld 50 [.load 4 .none none, .load 2 .none none]
         (initState [1, 2, 3, 4] cycFiles))).1 = some .cycle := by decide
+
+/-- A changed file is re-read: if, after any history, the timestamp of the file of `n` differs from the one
+    its cache entry was stamped with (os.utime, or an edit that kept imports and items), a successful
+    `load_theory_cache(n)` parses the file again (the parse event is in the log) and the entry then carries
+    the file's current timestamp and all of its items. -/
+theorem changed_file_reread (W : World) (names : List Name) (files : Name → File) (h : List Op)
+    (hh : ∀ o ∈ h, o.keepsContent) (fuel f : Nat) (n : Name) (e : Entry) :
+    let s := run W fuel h (initState names files)
+    let r := exec W none (f + 1) (.ltc n) s
+    s.entry n = some e → e.stamp ≠ some (s.files n).mtime → r.1 = none →
+    ∃ e', r.2.entry n = some e' ∧ e'.stamp = some (s.files n).mtime ∧
+      e'.content.map (·.1) = (s.files n).items ∧ Event.readFile n ∈ r.2.log := by
+  intro s r he hch hok
+  have hi : Inv W (initState names files).lib s := run_inv W _ fuel h _ hh (init_inv W names files)
+  exact ltcBody_reread W _ (exec_post W _ none f) n e hi he hch hok
+
+example :
+    let s := run exWorld 50 [.load 3 .none none, .touch 1 9] (initState [1, 2, 3] exFiles)
+    (∃ e, s.entry 1 = some e ∧ e.stamp = some 5) ∧ (s.files 1).mtime = 9
+    ∧ (exec exWorld none 50 (.ltc 1) { s with log := [] }).2.log = [.readFile 1]
+    ∧ (exec exWorld none 50 (.ltc 1) s).1 = none := by
+  refine ⟨⟨_, rfl, rfl⟩, rfl, by decide, by decide⟩
 
 /-! ### the tables generated from the sources -/
 
